@@ -220,9 +220,125 @@ fn stress_case(case: &Json) -> Json {
     res
 }
 
+/// op "slotmap": {"steps": [{"op": "add"|"remove", "f": k} | {"op": "open_stable"|"drop_stable"} | {"op": "lookup"}], "slots": n,
+///                "pool": dir with pack-f<k>.pack/.idx, "probe": {k: hex id of an object in file k}}
+/// Pack files are linked into and removed from an otherwise empty object directory; a lookup asks a refreshing handle for an id
+/// that does not exist. After each lookup: what Store::structure() and Store::metrics() show, and whether an object of every
+/// pack on disk is found.
+fn slotmap_case(case: &Json) -> Json {
+    let work = PathBuf::from(std::env::var("VERIF_WORK").expect("VERIF_WORK"));
+    let dir = work.join(format!("c12-slotmap-{}", std::process::id()));
+    let _ = std::fs::remove_dir_all(&dir);
+    let pack_dir = dir.join("objects/pack");
+    std::fs::create_dir_all(&pack_dir).expect("mkdir");
+    let pool = PathBuf::from(jstr(&case["pool"]));
+    let slots = case["slots"].as_u64().expect("slots") as u16;
+    let store = std::sync::Arc::new(
+        gix_odb::Store::at_opts(
+            dir.join("objects"),
+            &mut None.into_iter(),
+            gix_odb::store::init::Options { slots: gix_odb::store::init::Slots::Given(slots), ..Default::default() },
+        )
+        .expect("odb"),
+    );
+    let a = store.to_cache_arc();
+    let mut s: Option<ArcHandle> = None;
+    let mut on_disk = std::collections::BTreeSet::new();
+    let missing = gix_hash::ObjectId::from_hex(b"ffffffffffffffffffffffffffffffffffffffff").expect("hex");
+    let file_no = |p: &Path| -> u64 {
+        p.file_name()
+            .and_then(|n| n.to_str())
+            .and_then(|n| n.strip_prefix("pack-f"))
+            .and_then(|n| n.strip_suffix(".idx"))
+            .and_then(|n| n.parse().ok())
+            .unwrap_or(0)
+    };
+    let mut out = Vec::new();
+    for step in case["steps"].as_array().expect("steps") {
+        let f = step["f"].as_u64().unwrap_or(0);
+        match jstr(&step["op"]) {
+            "add" => {
+                for ext in ["pack", "idx"] {
+                    std::fs::copy(pool.join(format!("pack-f{f}.{ext}")), pack_dir.join(format!("pack-f{f}.{ext}"))).expect("copy");
+                }
+                on_disk.insert(f);
+                out.push(json!({"env": "ok"}));
+            }
+            "remove" => {
+                for ext in ["idx", "pack"] {
+                    std::fs::remove_file(pack_dir.join(format!("pack-f{f}.{ext}"))).expect("remove");
+                }
+                on_disk.remove(&f);
+                out.push(json!({"env": "ok"}));
+            }
+            "open_stable" => {
+                let mut h = a.clone();
+                h.prevent_pack_unload();
+                s = Some(h);
+                out.push(json!({"env": "ok"}));
+            }
+            "drop_stable" => {
+                s = None;
+                out.push(json!({"env": "ok"}));
+            }
+            "lookup" => {
+                let r = guarded(|| {
+                    let mut buf = Vec::new();
+                    let res = gix_object::Find::try_find(&a, &missing, &mut buf).map(|o| o.is_some());
+                    let mut order = Vec::new();
+                    let mut disposable = Vec::new();
+                    // an index that was never published has no records; structure() would try to initialise it once more, which is
+                    // a further refresh and not an observation
+                    let initialized = store.metrics().loose_dbs != 0;
+                    for rec in if initialized { store.structure().map_err(|e| e.to_string())? } else { Vec::new() } {
+                        use gix_odb::store::structure::{IndexState, Record};
+                        match rec {
+                            Record::LooseObjectDatabase { .. } => {}
+                            Record::Index { path, state } | Record::MultiIndex { path, state } => {
+                                order.push(file_no(&path));
+                                disposable.push(matches!(state, IndexState::Disposable));
+                            }
+                            Record::Empty => {
+                                order.push(0);
+                                disposable.push(false);
+                            }
+                        }
+                    }
+                    let m = store.metrics();
+                    let mut found = Vec::new();
+                    if res.is_ok() {
+                        for k in &on_disk {
+                            let id = gix_hash::ObjectId::from_hex(jstr(&case["probe"][k.to_string()]).as_bytes()).expect("hex");
+                            let mut buf = Vec::new();
+                            found.push(match gix_object::Find::try_find(&a, &id, &mut buf) {
+                                Ok(Some(d)) => json!({"f": k, "found": true, "exact": sha_hex(d.data, d.kind) == id.to_hex().to_string()}),
+                                Ok(None) => json!({"f": k, "found": false}),
+                                Err(e) => json!({"f": k, "error": e.to_string()}),
+                            });
+                        }
+                    }
+                    Ok::<_, String>(json!({"ok": matches!(res, Ok(false)), "found_missing": matches!(res, Ok(true)),
+                        "err": res.err().map(|e| e.to_string()).unwrap_or_default(),
+                        "order": order, "disposable": disposable, "unused": m.unused_slots, "kept": m.unreachable_indices, "probes": found}))
+                });
+                out.push(match r {
+                    Ok(Ok(j)) => j,
+                    Ok(Err(e)) => json!({"error": e}),
+                    Err(p) => json!({"panic": p}),
+                });
+            }
+            other => panic!("slotmap op {other}"),
+        }
+    }
+    drop((a, s));
+    let _ = std::fs::remove_dir_all(&dir);
+    Json::Array(out)
+}
+
 fn main() {
     run(|case| match jstr(&case["op"]) {
         "calls" => calls_case(case),
+        "slotmap" => slotmap_case(case),
         "stress" => stress_case(case),
         other => panic!("op {other}"),
     });
